@@ -242,6 +242,7 @@ class H:
         self.flags_reset = False
         self.ctor_args = []        # (class, [arg expressions])
         self.calls = []            # other process_* called
+        self.member_reset = set()  # members assigned "" before the attribute loop
 
 
 def split_args(s):
@@ -539,6 +540,10 @@ def analyse_handler(src_all, name, func_body, classes, consts):
             if t == "idim=0":
                 h.eff["resetDim"] = True
                 continue
+            m = re.fullmatch(r"(pp_id|standpoint_id)=(\"\"|PointID\(\)|std::string\(\)|string\(\))", t)
+            if m and not seen_loop:
+                h.member_reset.add(m.group(1))       # the member is cleared before the attributes are read
+                continue
             m = re.fullmatch(r"standpoint_id=(\w+)", t)
             if m:
                 h.eff["setStandpoint"] = m.group(1)
@@ -774,8 +779,8 @@ def finalise(h, classes):
         cov = (o["idim"], o["iband"])
     h.eff["cov"] = cov
     inits = {v: i for v, i in h.locals.items() if i != "empty"}
-    for v in set(h.required) | set(bind.values()):
-        if v in MEMBERS:
+    for v in sorted(set(h.required) | set(bind.values())):
+        if v in MEMBERS and v not in h.member_reset:
             inits[v] = ("member", v)
     words_defaults = {}
     return dict(entries=entries, bind=bind, inits=inits, required=list(h.required), pairs=list(h.pairs), cross=list(h.cross),
